@@ -221,10 +221,14 @@ class Wallet:
         return False
 
     async def unlock(self, password):
+        decrypted = []
         for account in self.accounts:
             if account.encrypted:
                 if not account.decrypt(password):
+                    for unlocked in decrypted:  # leave the wallet as it was: locked
+                        unlocked.encrypt(password)
                     return False
+                decrypted.append(account)
                 await account.deterministic_channel_keys.ensure_cache_primed()
         self.encryption_password = password
         return True
